@@ -2,10 +2,12 @@
 from p_tokens import C16
 from p_router import C17
 from p_response import C05, C06
+from p_conn import C01
 
 REGISTRY = {
     'C16': C16,
     'C17': C17,
     'C05': C05,
     'C06': C06,
+    'C01': C01,
 }
